@@ -66,9 +66,9 @@ func (w *World) mutexName(v ssa.Value) string {
 }
 
 type ownAnalysis struct {
-	w      *World
-	entry  map[*ssa.Function]lockset // must-hold lockset at function entry (nil = not yet known / top)
-	at     map[ssa.Instruction]lockset
+	w       *World
+	entry   map[*ssa.Function]lockset // must-hold lockset at function entry (nil = not yet known / top)
+	at      map[ssa.Instruction]lockset
 	foreign map[*ssa.Function]string // functions reachable from a thread root other than the command loop
 }
 
@@ -406,6 +406,11 @@ func (w *World) ownershipObligations() []*Obligation {
 				Src: "the declared call site exists", Status: "sat", Solver: "ownership-dataflow", Output: "no such call in that function (renamed or moved?)"})
 		}
 	}
+	// lock balance (no deadlock by a leaked lock): on every path to a return each mutex locked in the function
+	// has been unlocked again or is unlocked by a deferred call (may-hold dataflow, union at merges)
+	for _, fn := range fns {
+		obls = append(obls, w.lockBalance(fn)...)
+	}
 	// a declaration that matches no access at all would be vacuous: fail closed
 	for _, od := range w.db.Owners {
 		if hit[od.Field] == 0 {
@@ -414,4 +419,100 @@ func (w *World) ownershipObligations() []*Obligation {
 		}
 	}
 	return obls
+}
+
+// lockBalance: one obligation per mutex that fn locks.
+func (w *World) lockBalance(fn *ssa.Function) []*Obligation {
+	locked := map[string]bool{}
+	deferred := map[string]bool{}
+	lockOp := func(cc *ssa.CallCommon) (string, string) {
+		if sf := cc.StaticCallee(); sf != nil && len(cc.Args) > 0 {
+			switch sf.String() {
+			case "(*sync.Mutex).Lock", "(*sync.RWMutex).Lock":
+				return "lock", w.mutexName(cc.Args[0])
+			case "(*sync.Mutex).Unlock", "(*sync.RWMutex).Unlock":
+				return "unlock", w.mutexName(cc.Args[0])
+			}
+		}
+		return "", ""
+	}
+	for _, b := range fn.Blocks {
+		for _, in := range b.Instrs {
+			switch x := in.(type) {
+			case *ssa.Call:
+				if op, n := lockOp(&x.Call); op == "lock" && n != "" {
+					locked[n] = true
+				}
+			case *ssa.Defer:
+				if op, n := lockOp(&x.Call); op == "unlock" && n != "" {
+					deferred[n] = true
+				}
+			}
+		}
+	}
+	if len(locked) == 0 {
+		return nil
+	}
+	ins := map[int]lockset{0: {}}
+	work := []int{0}
+	leaked := map[string]string{}
+	outs := map[int]string{}
+	for len(work) > 0 {
+		bi := work[0]
+		work = work[1:]
+		cur := ins[bi].clone()
+		for _, in := range fn.Blocks[bi].Instrs {
+			switch x := in.(type) {
+			case *ssa.Call:
+				switch op, n := lockOp(&x.Call); op {
+				case "lock":
+					if n != "" {
+						cur[n] = true
+					}
+				case "unlock":
+					delete(cur, n)
+				}
+			case *ssa.Return:
+				for n := range cur {
+					if !deferred[n] {
+						leaked[n] = w.fset.Position(x.Pos()).String()
+					}
+				}
+			}
+		}
+		if o, ok := outs[bi]; ok && o == cur.String() {
+			continue
+		}
+		outs[bi] = cur.String()
+		for _, s := range fn.Blocks[bi].Succs {
+			ni := ins[s.Index].clone()
+			if ni == nil {
+				ni = lockset{}
+			}
+			before := ni.String()
+			for n := range cur {
+				ni[n] = true
+			}
+			if _, seen := ins[s.Index]; !seen || ni.String() != before {
+				ins[s.Index] = ni
+				work = append(work, s.Index)
+			}
+		}
+	}
+	var out []*Obligation
+	var names []string
+	for n := range locked {
+		names = append(names, n)
+	}
+	sort.Strings(names)
+	for _, n := range names {
+		o := &Obligation{Name: fmt.Sprintf("%s/released-before-return:%s", w.relName(fn), n), Func: w.relName(fn), Kind: "own", Props: []string{"C20"},
+			Src: fmt.Sprintf("every path from a Lock of %s to a return passes an Unlock (or one is deferred)", n), Solver: "ownership-dataflow", Pos: w.fset.Position(fn.Pos()), Status: "unsat"}
+		if at, bad := leaked[n]; bad {
+			o.Status = "sat"
+			o.Output = fmt.Sprintf("%s may still be held at the return at %s: the next Lock of it blocks for ever", n, at)
+		}
+		out = append(out, o)
+	}
+	return out
 }
